@@ -490,8 +490,9 @@ class ConvRoundTrip(Stream):
             ["intsna", None, ["list", [["none"]]], "witness:single-none-element"],
             ["ints", None, ["list", []], "witness:empty-list-text"],
             ["strings", None, ["list", [["str", "x\ny"], ["str", "z"]]], "witness:multiline-before-more"],
-            ["choicemp", None, ["list", []], "witness:plus-names-no-selection"],
-            ["choicep", None, ["none"], "witness:plus-names-no-selection"],
+            # repaired in 2097a6c (formerly plus-names-no-selection): the complete unstarred list reads back as "nothing selected"
+            ["choicemp", None, ["list", []], "dom"],
+            ["choicep", None, ["none"], "dom"],
             # repaired defects (must pass): 7891807 a strings item spelt None/Auto is written quoted; b77ba3d scalar bounds
             ["strings", None, ["list", [["str", "None"]]], "dom"],
             ["strings", None, ["list", [["str", "auto"]]], "dom"],
@@ -731,9 +732,6 @@ def text_kind(tree):
     if kind == "def":
         if len(body) == 0:
             return "empty-list-text"
-        if any(a[0] == "type" and a[1][0] == "type" and a[1][1][0] == "choice" for a in at if isinstance(a[1], list) and len(a[1]) > 1 and isinstance(a[1][1], list)) \
-                and any("+" in w[0] for w in body) and not any(w[0].startswith("*") for w in body):
-            return "plus-names-no-selection"
         # (quoted words may follow a word that spans lines; a bare word after it cannot be written)
         if any("\n" in w[0] and any(x[1] == "n" for x in body[i + 1:]) for i, w in enumerate(body[:-1])):
             return "multiline-before-more"
